@@ -12,16 +12,16 @@ UNITS = [
 B_FIX = ' pending fixup(s) of one label, each with symbolic section (0/1), position inside its own 8-byte window, addend (all 2^64), format drawn from {x86 rel8, rel32, a64 imm26, imm19, imm14, ADR, ADRP} or relocation-carrying {embed_label 1/2/4/8, x86-32 [label]}; 24 symbolic bytes per section (field bits zero); '
 HARNESSES = [Harness('fixup', 'h_bind_%d' % k, unwind=49, bounds=str(k) + B_FIX + 'bind target section 0..3 and offset all 2^64; label id valid or beyond the table; older cross-section list empty or one entry; pool empty or one entry', mem_gb=6, timeout=900, unwindset=UW_BIND,
                      tiers=('quick', 'thorough') if k < 3 else ('thorough',)) for k in (0, 1, 2, 3)]
-HARNESSES += [Harness('fixup', 'h_bind_invalid', unwind=9, bounds='label id and section id any value beyond the tables; 2 pending fixups as in h_bind_2', mem_gb=4, timeout=600)]
+HARNESSES += [Harness('fixup', 'h_bind_invalid', unwind=9, bounds='label id / section id in {count, count+1, 2^31, kInvalidId}; 2 pending fixups as in h_bind_2', mem_gb=4, timeout=600, unwindset=UW_BIND)]
 HARNESSES += [Harness('fixup', 'h_bind_twice', unwind=9, bounds='label bound at any offset in section 0/1, second bind with any section 0/1 and offset', mem_gb=2, timeout=300)]
 HARNESSES += [Harness('fixup', 'h_resolve_%d' % k, unwind=49, bounds=str(k) + B_FIX + 'two bound labels at any 2^64 offset in either section; both section offsets all 2^64 (overflow of section + label inside)', mem_gb=6, timeout=900,
                       tiers=('quick', 'thorough') if k < 3 else ('thorough',)) for k in (0, 1, 2, 3)]
 B_EMB = 'x86-32 / x86-64; emitting section 0/1; label bound before the reference (section 0/1, offset all 2^64) or bound afterwards anywhere; section offsets and base address all 2^64; 32 symbolic bytes per section'
 HARNESSES += [Harness('embed', 'h_embed_label_%d' % n, unwind=33, bounds='embed_label data size %d (0 = register size); ' % n + B_EMB, mem_gb=4, timeout=600, unwindset=UW_EMB, flags=FS) for n in (0, 1, 2, 4, 8, 3, 16)]
 HARNESSES += [Harness('embed', 'h_embed_label_invalid', unwind=33, bounds='label id any value beyond the table', mem_gb=4, timeout=600, unwindset=UW_EMB, flags=FS)]
-HARNESSES += [Harness('embed', 'h_embed_delta_%d' % n, unwind=33, bounds='embed_label_delta data size %d (0 = register size); both labels independently bound before or after; ' % n + B_EMB, mem_gb=4, timeout=600, unwindset=UW_EMB, flags=FS) for n in (0, 1, 2, 4, 8)]
+HARNESSES += [Harness('embed', 'h_embed_delta_%d' % n, unwind=33, bounds='embed_label_delta data size %d (0 = register size); nine combinations of (emitting section, each label bound before in section 0/1 or bound afterwards anywhere); ' % n + B_EMB, mem_gb=4, timeout=600, unwindset=UW_EMB, flags=FS) for n in (0, 1, 2, 4, 8)]
 HARNESSES += [Harness('embed', 'h_embed_delta_%d_kf_C03a' % n, unwind=33, known='C03a', bounds='as h_embed_delta_%d, confined to: both labels already bound to one section and the difference does not fit the field' % n, mem_gb=4, timeout=600, unwindset=UW_EMB, flags=FS) for n in (1, 4)]
-HARNESSES += [Harness('embed', 'h_expression_' + k, unwind=33, bounds='expression shape ' + k + ' (c = constant, l = label, nested = depth 2); operators add/sub/mul/sll/srl/sra and an invalid one; constants, label offset, section offsets all 2^64', mem_gb=4, timeout=600, unwindset=UW_EMB, flags=FS) for k in ('cc', 'lc', 'nested_l', 'nested_r')]
+HARNESSES += [Harness('embed', 'h_expression_' + k, unwind=33, bounds='expression shape ' + k + ' (c = constant, l = label, nested = depth 2); operators add/sub/mul/sll/srl/sra and an invalid one (mul: constant factor 8 bits wide, depth 1 only); constants, label offset, section offsets all 2^64', mem_gb=4, timeout=600, unwindset=UW_EMB, flags=FS) for k in ('cc', 'lc', 'nested_l', 'nested_r')]
 EXPLANATION = 'bounded symbolic execution (CBMC) of the real CodeHolder::bind_label / resolve_cross_section_fixups / new_fixup / relocate_to_base, BaseAssembler::embed_label / embed_label_delta and the reference sites of x86::Assembler::_emit / a64::Assembler::_emit compiled from /repo; the oracle decodes the patched bytes the way the CPU does (reference decoders in the harness)'
 OUTSIDE = ['more than 3 pending fixups per label (the list code is uniform in the length)', 'more than 2 sections', 'buffer growth during emission (C15)', 'Thumb/A32 formats (no A32 assembler in this tree)']
 ASSUMPTIONS = ['emitter.cpp is not linked: BaseEmitter::_report_error (counter) and BaseEmitter::is_label_valid (same one-line test) are defined in the harness; the assembler object is attached by construction',
